@@ -59,6 +59,31 @@ func (ex *Exec) functypeContract(caller *ssa.Function, v ssa.Value) *Contract {
 			}
 		}
 	}
+	// by call-site ordinal: "functype F:call#k" is the k-th dynamic call of a function value in F (block order)
+	if caller != nil {
+		k := 0
+		for _, b := range caller.Blocks {
+			for _, in := range b.Instrs {
+				ci, ok := in.(ssa.CallInstruction)
+				if !ok {
+					continue
+				}
+				cc := ci.Common()
+				if cc.IsInvoke() || cc.StaticCallee() != nil {
+					continue
+				}
+				if _, isB := cc.Value.(*ssa.Builtin); isB {
+					continue
+				}
+				if cc.Value == v {
+					if c := ex.ct.Funcs[fmt.Sprintf("functype:%s:call#%d", caller.String(), k)]; c != nil {
+						return c
+					}
+				}
+				k++
+			}
+		}
+	}
 	t := v.Type()
 	if n, ok := t.(*types.Named); ok {
 		if c := ex.ct.Funcs["functype:"+typeKey(n)]; c != nil {
